@@ -2866,7 +2866,7 @@ class Entity(MutableMapping[str, str]):
         orig_name = self['targetname']
         if orig_name:
             # If this name is already unique, preserve it.
-            if self.map.by_target[orig_name] == {self}:
+            if self.map.by_target[orig_name.casefold()] == {self}:
                 return self
 
             self['targetname'] = ''  # Remove ourselves from the .by_target[] set.
@@ -2875,12 +2875,12 @@ class Entity(MutableMapping[str, str]):
 
         base_name = orig_name.rstrip('0123456789')
 
-        if self.map.by_target[base_name]:
+        if self.map.by_target[base_name.casefold() or None]:
             # Check every index in order.
             i = 1
             while True:
                 name = base_name + str(i)
-                if not self.map.by_target[name]:
+                if not self.map.by_target[name.casefold()]:
                     self['targetname'] = name
                     break
                 i += 1
